@@ -242,6 +242,7 @@ func sigHistories(realKey *rsa.PublicKey, objLen, callLen int) int64 {
 	}
 	nNb := neighbourFamily(nb)
 	nNb += sigNeighbourFamily(nb / 2)
+	nNb += splitFamily()
 	if !initHist(realKey) {
 		rep.Cap("signature histories skipped: with the harness key installed as the trusted key no framing of the menu yields a pair VerifySignature accepts, so no genuine verification can precede a forgery")
 		return nNb
